@@ -2,11 +2,11 @@ import PocketModel.Basic.Proto
 import PocketModel.Ledger.Determinism
 /-! Driver for C12 (see harness/cmd/c12).
 
-* `norm <key:share,…> => invalid | <addr:share,… sorted>` — real `NormalizeRewardDelegators` vs
-  `Determinism.normalize` (the model is run on the entries in canonical order; by
-  `C12.normalize_order_indep` the order does not matter for validity).
-* `split <rewards> <primary> <key:share,…> => error | <addr:amount,… sorted>` — real
-  `SplitNodeRewards` (callbacks summed per address) vs `Determinism.splitNodeRewards` + `applyPays`.
+* `norm <key:share,…> => invalid | <addr:share,… in the order returned>` — real
+  `NormalizeRewardDelegators` vs `Determinism.normalizeSorted` (the model is run on the entries in
+  canonical key order; by `C12.normalize_sorted_indep` the order it is fed does not matter).
+* `split <rewards> <primary> <key:share,…> => error | <addr:amount,… in callback order>` — real
+  `SplitNodeRewards` vs `Determinism.splitNodeRewardsSorted`: recipients, amounts AND order.
 * `run <rep> blk <h> <kinds> wall=<w> => apphash codes dataDigest valUpdates stateDigest rawDigest` —
   repeat executions of one history in fresh processes: every run must equal run 0 (the property
   itself).  PROPFAIL signature by history kind; for `delegators`/`genesismaps` histories the model
@@ -32,17 +32,11 @@ def parseDels (s : String) : Option (List (Option String × Nat)) :=
     | [k, sh] => sh.toNat?.map fun n => (parseAddr k, n)
     | _ => none
 
-def insertSorted (p : String × String) : List (String × String) → List (String × String)
-  | [] => [p]
-  | q :: rest => if p.1 < q.1 then p :: q :: rest else q :: insertSorted p rest
+def renderInOrder (l : List (String × String)) : String :=
+  if l.isEmpty then "-" else ",".intercalate (l.map fun p => s!"{p.1}:{p.2}")
 
-def renderSorted (l : List (String × String)) : String :=
-  let s := l.foldl (fun acc p => insertSorted p acc) []
-  if s.isEmpty then "-" else ",".intercalate (s.map fun p => s!"{p.1}:{p.2}")
-
-/-- sum payments per address (the harness sums the callbacks per address) -/
-def sumPays (ps : List (String × Int)) : List (String × Int) :=
-  ps.foldl (fun acc p => if acc.any (·.1 = p.1) then acc.map (fun q => if q.1 = p.1 then (q.1, q.2 + p.2) else q) else acc ++ [p]) []
+/-- `bytes.Compare(a, b) <= 0` on addresses = string order of their lower-case hex form -/
+def addrLe (a b : String) : Bool := decide (a ≤ b)
 
 def sigOfKind (kind : String) : String :=
   if kind = "delegators" then "delegators-order-apphash"
@@ -56,16 +50,16 @@ def step (st : St) (pre post : List String) : St × Verdict :=
     match parseDels ds with
     | none => (st, .bad "delegators")
     | some es =>
-      let m := match normalize es with
+      let m := match normalizeSorted addrLe es with
         | none => "invalid"
-        | some n => renderSorted (n.map fun e => (e.1, toString e.2))
+        | some n => renderInOrder (n.map fun e => (e.1, toString e.2))
       (st, if [m] = post then .ok else .diff s!"normalize: model {m} impl {post}")
   | ["split", r, primary, ds] =>
     match r.toInt?, parseDels ds with
     | some rewards, some es =>
-      let m := match splitNodeRewards rewards primary es with
+      let m := match splitNodeRewardsSorted addrLe rewards primary es with
         | none => "error"
-        | some ps => renderSorted ((sumPays ps).map fun e => (e.1, toString e.2))
+        | some ps => renderInOrder (ps.map fun e => (e.1, toString e.2))
       -- executable spec on the implementation's own answer: nothing is created or lost
       let conserve : Bool := match post with
         | ["error"] => true
